@@ -429,6 +429,23 @@ def observe_robust(case, kw, env, rq):
         # prices 0 (value 0 either way), so the replay runs the real robust optimisation on a seeded non-degenerate instance of the shape
         from . import c18
         D = lift.Domain(theta=c18.instance_env(kw['shape'], 0, 0))
+    elif rq.get('kind') == 'replay':
+        # the scenario rows handed to the solver are not the given samples: the witness (all prices 0) shows nothing, so the bounds of the
+        # property are evaluated on an instance where the set-up prices point the other way than every scenario (price series swapped between
+        # the set-up prices and the scenarios; everything else seeded)
+        from . import c18
+        src = c18.instance_env(kw['shape'], 0, 0)
+
+        class Adversarial(dict):
+            def get(self, name, default=0.0):
+                import re
+                m = re.match(r'^([pqrk])(?:_s\d+_)?(\d+)$', name)
+                if m:
+                    scen_ = '_s' in name
+                    hi = (m.group(1) in 'pk') != scen_
+                    return 10.0 if hi else 1.0
+                return src.get(name, default)
+        D = lift.Domain(theta=Adversarial())
     sh = shapes.build_portfolio(D, kw['shape'], **kw['kw'])
     op = sh.portf.setup_optim_problem(sh.prices, sh.tg)
     samples = c17.scenario_prices(D, sh.prices, sh.tg.T, 0, kw['S'])
@@ -468,11 +485,8 @@ def judge_robust(case, kwargs, cand, ans):
 
 # ------------------------------------------------------------------------------------------------ contract validation
 def run_validate(rec, seed, n_inst, offset):
-    """instance testing of the solver contract with the real cvxpy (runs in the pristine interpreter)"""
-    rec.validations.append(dict(env={}, extra=dict(n_inst=n_inst, seed=seed + offset), lifted=dict(contract_violations=[], instances=n_inst)))
-    rec.obligations.append(dict(name='contract_validation_requested', verdict='unsat', secs=0, form='L0'))
-    rec.distinct.add('contract_validation_%d' % offset)
-    rec.distinct.add('contract_validation_%d_b' % offset)
+    """instance testing of the solver contract with the real cvxpy: decided in the pristine interpreter (real solvers, exact z3 optimum)"""
+    rec.pchecks.append(dict(extra=dict(n_inst=n_inst, seed=seed + offset)))
     rec.twins_ok += 1
     rec.vacuity_ok += 1
     return rec.result()
@@ -539,6 +553,7 @@ def observe(case, kwargs, env, rq):
     eao = lift.import_eao()
     rnd = random.Random(rq.get('extra', {}).get('seed', 0))
     viol = []
+    checked = []
     n_inst = rq.get('extra', {}).get('n_inst', 4)
     for k in range(n_inst):
         inst = random_instance(rnd)
@@ -559,6 +574,7 @@ def observe(case, kwargs, env, rq):
             except Exception as e:  # noqa: BLE001 - a solver that cannot take the class is not a contract violation
                 continue
             tag = 'instance %d solver %s' % (k, sv or 'default')
+            checked.append('instance%d/%s' % (k, sv or 'default'))
             if isinstance(res, str):
                 if res == 'not successful' and opt is not None:
                     viol.append('%s: reports failure but the problem is feasible (optimum %.6g)' % (tag, opt))
@@ -594,6 +610,7 @@ def observe(case, kwargs, env, rq):
         if isinstance(res, str):
             viol.append('split instance %d: reports failure but every interval is feasible' % k)
             continue
+        checked.append('split_instance%d' % k)
         x = np.asarray(res.x, dtype=float)
         tot = 0.0
         for i, o in enumerate(ops):
@@ -605,7 +622,13 @@ def observe(case, kwargs, env, rq):
             tot += opt
         if abs(float(res.value) - tot) > 1e-4 * max(1, abs(tot)):
             viol.append('split instance %d: value %.8g, sum of the exact interval optima %.8g' % (k, float(res.value), tot))
-    return dict(contract_violations=viol, instances=n_inst)
+    obligations = [dict(name='contract/%s' % t_, verdict='unsat', secs=0, form='L0') for t_ in checked]
+    violations = []
+    for k_, v_ in enumerate(viol):
+        nm = 'contract/violation%d' % k_
+        obligations.append(dict(name=nm, verdict='sat', secs=0, form='L0'))
+        violations.append(dict(name=nm, text=v_, env={}, info=dict(kind='contract', seed=rq.get('extra', {}).get('seed', 0))))
+    return dict(obligations=obligations, violations=violations, solver_s=0.0, samples=[dict(case=case, instances=n_inst, solver_runs=len(checked))])
 
 
 def stub_replay(kwargs, env, info):
